@@ -35,6 +35,19 @@ func (e ExUnitsTooBigUtxoError) Error() string {
 	)
 }
 
+type TooManyCollateralInputsError struct {
+	Provided uint
+	Max      uint
+}
+
+func (e TooManyCollateralInputsError) Error() string {
+	return fmt.Sprintf(
+		"too many collateral inputs: provided %d, maximum %d",
+		e.Provided,
+		e.Max,
+	)
+}
+
 type InsufficientCollateralError struct {
 	Provided uint64
 	Required uint64
